@@ -621,8 +621,9 @@ MANIFEST = dict(
               "bit-exact differential correspondence of the executable model with the real backend on all store "
               "paths, with gcc's conversions as the predicate oracle",
     text="Proof: for every finite binary64 x the model's (float) conversion equals Flocq's round-to-nearest-even of "
-         "the real value into binary32, or the infinity of x's sign when that does not fit (threshold pinned at "
-         "0x47effffff0000000); zeros/infinities keep sign, NaN stays NaN; float->double is exact and "
+         "the real value into binary32, or the infinity of x's sign when that does not fit, which happens exactly "
+         "from 0x47effffff0000000 upwards (an iff: 0x47efffffefffffff is proved to be its binary64 predecessor, so no "
+         "double lies between); zeros/infinities keep sign, NaN stays NaN; float->double is exact and "
          "narrow(widen x) = x for every non-NaN binary32 (also on bit patterns); complex parts are stored at "
          "offsets 0 and sizeof(type) exactly like a float store; long double read+write keeps the 10 value bytes. "
          "The same Gallina definitions are evaluated by vm_compute on the inputs the real _cffi_backend is run on "
